@@ -6,6 +6,9 @@ CLAIMED = {
  "C01": dict(level="exploration", technique="bounded-exhaustive enumeration of well-typed programs (type-directed, every term once) run on the real pipeline against a reference interpreter",
    text="Every well-typed GL-core program up to AST size 6 (quick) / 7 (thorough) at 7 result types plus full cartesian feature products (call shapes x position x capture x enclosing pattern, pattern matrices, record update orders, recursion shapes, short-circuit trees, do-chains) is compiled and run by the real parser/checker/compiler/VM with optimisation off and on and with the implicit prelude, and compared with a strict call-by-value reference interpreter. Exhaustive within the stated bound: a wrong stack slot, pattern order or arity case that manifests on any program below the bound is found.",
    note="Trusted: the harness reference interpreter (lang/refsem.rs, ~450 lines) and printer; programs whose outcome depends on the undocumented evaluation order of sibling sub-expressions are skipped and counted; under optimize=on the documented permitted difference (unused built-in arithmetic) is decided exactly by refsem::accept_set.", ref="4.1"),
+ "C02": dict(level="exploration", technique="bounded-exhaustive enumeration of accepted programs and of all first-order token mutants x settings grid, executed on the real pipeline",
+   text="Every enumerated well-typed program up to size 5 (quick) / 6 (thorough) under 4 corner settings (quick) / all 32 settings (thorough), every first-order token mutant (18 replacement atoms, delete, duplicate, swap) of a base set that the checker accepts, and 17 two-module programs x all 32 settings are executed; the outcome must not be a host panic or an internal-error message and a returned value must have the shape of the reported type (type-directed walk).",
+   note="Internal failures are recognised by message list (vmkit::FORBIDDEN_MESSAGES) and catch_unwind; the shape check is conservative under type variables and abstract types.", ref="4.2"),
  "C04": dict(level="exploration", technique="bounded-exhaustive differential execution (optimize off vs on) of enumerated programs with host-effect log",
    text="Every enumerated program with host effects, explicit failures and discarded bindings up to size 5 (quick) / 6 (thorough), the full product of 16 dead/live positions x 14 effectful or failing expressions (direct, through record fields, closures, partial applications, an imported module) and ordered pairs of them, and the C01 feature products are each compiled twice by the real pipeline and compared on value, failure and the sequence of host-function calls.",
    note="Differential on gluon itself; the only tolerated difference is computed exactly from the reference semantics (first j failing unused built-in arithmetic operations skipped).", ref="4.4"),
